@@ -440,4 +440,47 @@ def PackedBase.blockSeedC (b : PackedBase) (s e idx : Nat) : Nat × Nat × Nat :
   let start := off + (s / b.panelSize) * b.panelStride
   (start, start + (divCeil e b.panelSize - s / b.panelSize) * ps, ps)
 
+/-! ## Packing from strided storage
+
+`pack_a_block` / `pack_b_block` receive a matrix *view* (`row_stride`, `col_stride` arbitrary) and a
+block `rows r0..r1 × cols c0..c1` in absolute coordinates.  These functions list the storage
+offsets read, in write order (`none` = zero padding written). -/
+
+/-- `pack_a_block`: `range_chunks(rows, MR)` over the absolute row range, `a[[row, col]]` at
+`row·row_stride + col·col_stride`, zero rows up to `MR`. -/
+def packASrc (mr rstr cstr r0 r1 c0 c1 : Nat) : List (Option Nat) :=
+  (rangeChunks (r1 - r0) r0 r1 mr).flatMap fun pr =>
+    ((List.range' pr.1 (pr.2 - pr.1)).flatMap fun row =>
+      (List.range (c1 - c0)).map fun col => some (row * rstr + (c0 + col) * cstr)) ++
+    ((List.range' pr.2 (pr.1 + mr - pr.2)).flatMap fun _ => List.replicate (c1 - c0) none)
+
+/-- `pack_b_block`, both branches as written: full panels use
+`b_offset = rows.start·rs + (cols.start + panel_start_col)·cs` and `in_offset = b_offset + row·rs`
+(`+ col` resp. `+ col·cs`); the final padded panel uses
+`(rows.start + row)·rs + (cols.start + panel_start_col + col)·cs`. -/
+def packBSrc (nr rstr cstr r0 r1 c0 c1 : Nat) : List (Option Nat) :=
+  (List.range (divCeil (c1 - c0) nr)).flatMap fun panel =>
+    let start := panel * nr
+    if nr ≤ (c1 - c0) - start then
+      (List.range (r1 - r0)).flatMap fun row =>
+        (List.range nr).map fun col =>
+          some ((r0 * rstr + (c0 + start) * cstr) + row * rstr + col * cstr)
+    else
+      (List.range (r1 - r0)).flatMap fun row =>
+        (List.range nr).map fun col =>
+          if start + col < c1 - c0 then
+            some ((r0 + row) * rstr + (c0 + start + col) * cstr)
+          else none
+
+section StridedVals
+variable {α : Type} [Zero α]
+
+/-- Values written when the storage is `data`. -/
+def srcVals (data : Nat → α) (src : List (Option Nat)) : List α :=
+  src.map fun
+    | some o => data o
+    | none => 0
+
+end StridedVals
+
 end RtenVerif.Gemm
